@@ -511,6 +511,8 @@ class MiniInterp:
             elif isinstance(obj, tuple) and obj and obj[0] == "class":
                 owner = next((c for c in obj[1].mro() if t.attr in c.class_attrs), obj[1])
                 self.class_state[(owner.qual, t.attr)] = v
+            elif isinstance(obj, Closure):
+                obj.__dict__.setdefault("attrs", {})[t.attr] = v
             else:
                 raise Unknown(f"attribute store on {type(obj).__name__}")
         elif isinstance(t, ast.Subscript):
@@ -969,11 +971,16 @@ class MiniInterp:
                         return BoundFunc(m, T("class", obj.cls))
                     return BoundFunc(m, obj)
                 for c in obj.cls.mro():
-                    if (c.qual, attr) in self.class_state:
-                        return self.class_state[(c.qual, attr)]
-                    if attr in c.class_attrs and c.class_attrs[attr] is not None:
+                    if (c.qual, attr) not in self.class_state and attr in c.class_attrs and c.class_attrs[attr] is not None:
+                        # the class body is executed once: every instance sees the same object
                         f0 = next(iter(c.methods.values()), fi)
-                        return self.ev(c.class_attrs[attr], {}, f0)
+                        self.class_state[(c.qual, attr)] = self.ev(c.class_attrs[attr], {}, f0)
+                    if (c.qual, attr) in self.class_state:
+                        val = self.class_state[(c.qual, attr)]
+                        if isinstance(val, Closure) or (isinstance(val, BoundFunc) and val.self_obj is None and not val.fi.is_method()):
+                            # a function stored in the class body is a method: bound to the instance on access
+                            return PyFn(f"bound {attr}", lambda a, k, val=val, obj=obj: self.call_callable(val, [obj] + list(a), dict(k)))
+                        return val
             if obj.open:
                 ch = Sym(f"{obj.name}.{attr}", _open=True)
                 ch.parent = (obj, attr)
@@ -1007,7 +1014,8 @@ class MiniInterp:
             for c in ci.mro():
                 if attr in c.class_attrs and c.class_attrs[attr] is not None:
                     f0 = next(iter(c.methods.values()), fi)
-                    return self.ev(c.class_attrs[attr], {}, f0)
+                    self.class_state[(c.qual, attr)] = self.ev(c.class_attrs[attr], {}, f0)
+                    return self.class_state[(c.qual, attr)]
             raise Unknown(f"class attribute {attr}")
         if isinstance(obj, tuple) and obj and obj[0] == "external":
             if (obj[1], attr) in (("os.path", "sep"), ("os", "sep")):
@@ -1059,6 +1067,8 @@ class MiniInterp:
             return PyFn(f"{obj[1]}.{attr}", unbound)
         if isinstance(obj, BoundFunc) and attr in ("__name__", "__qualname__"):
             return obj.fi.name
+        if isinstance(obj, Closure) and attr in getattr(obj, "attrs", {}):
+            return obj.attrs[attr]
         if isinstance(obj, Closure) and attr == "__name__":
             return getattr(obj.node, "name", "<lambda>")
         t = type(obj)
